@@ -86,7 +86,7 @@ try:
             t0 = time.time()
             rc, o = sh("go test -vet=off -count=1 -timeout 25m ./... 2>&1 | grep -E '^(FAIL|ok|---)' ", cwd=WT, timeout=3000)
             fl = failing(o)
-            base = failing(open("/tmp/mut/base-test.log").read()) if os.path.exists("/tmp/mut/base-test.log") else []
+            base = failing(open("/verif/seeded/_baseline-suite.log").read()) if os.path.exists("/verif/seeded/_baseline-suite.log") else []
             # tests that fail here but not on the unchanged tree: rerun alone (timing-based tests flake under load)
             pend, pkg_of = [], {}
             for line in o.splitlines():
